@@ -23,11 +23,11 @@ Next ==
           [] e.ev = "cp" ->
                /\ Bump(6)
                \* CP437: all 256 codes; ATASCII: its 128 base codes
-               /\ Check((e.conv = "cp437" \/ (e.conv = "atascii" /\ e.code < 128)) => e.back = e.code, "C18", "CodePageRoundTrip", l, [conv |-> e.conv, code |-> e.code, uni |-> e.uni, back |-> e.back])
+               /\ Check((e.conv = "cp437" \/ (e.conv = "atascii" /\ e.code < 128)) => e.back = e.code, "C18", "CodePageRoundTrip", l, [conv |-> e.conv, page |-> e.page, fg |-> e.fg, bg |-> e.bg, code |-> e.code, uni |-> e.uni, back |-> e.back])
                /\ Expect(e.conv = "cp437" /\ e.code # 0 => e.uni = Cp437ToUnicode[e.code + 1], "cp437-table", l, [code |-> e.code, uni |-> e.uni])
           [] e.ev = "typed" ->
                /\ Bump(7)
-               /\ Check(Alnum(e.ch) => e.back = e.ch, "C18", "TypedRoundTrip", l, [conv |-> e.conv, page |-> e.page, ch |-> e.ch, code |-> e.code, back |-> e.back])
+               /\ Check(Alnum(e.ch) => e.back = e.ch, "C18", "TypedRoundTrip", l, [conv |-> e.conv, page |-> e.page, fg |-> e.fg, bg |-> e.bg, ch |-> e.ch, code |-> e.code, back |-> e.back])
           [] OTHER -> Viol("TOOL", "unknown-event", l, e.ev)
   /\ l' = l + 1
 Spec == Init /\ [][Next]_vars
